@@ -147,37 +147,34 @@ func runR2e(c *Ctx, s *r2State) {
 	if !c.InScope("broadcast") {
 		return
 	}
-	hold := c.Prog.LookupFunc("broadcast", "Broadcast", "HoldLock")
-	if hold == nil {
-		c.MissingAnchor("R2e", "broadcast.(*Broadcast).HoldLock")
-		return
-	}
-	hd := c.Prog.Decl(hold)
-	// the two method values handed to the callback
+	// the two method values handed to the section callback (wherever in the package that call lives)
 	var bm, gm *types.Func
-	ast.Inspect(hd.Decl.Body, func(n ast.Node) bool {
-		call, ok := n.(*ast.CallExpr)
-		if !ok || len(call.Args) != 2 {
-			return true
-		}
-		if id, ok := unparen(call.Fun).(*ast.Ident); !ok || identVar(id, &core.Frame{Pkg: hd.Pkg}) == nil {
-			return true
-		}
-		for i, a := range call.Args {
-			if sel, ok := unparen(a).(*ast.SelectorExpr); ok {
-				if sl, ok := hd.Pkg.TypesInfo.Selections[sel]; ok && sl.Kind() == types.MethodVal {
-					if i == 0 {
-						bm = sl.Obj().(*types.Func)
-					} else {
-						gm = sl.Obj().(*types.Func)
+	for _, hd := range pkgDecls(c, "broadcast") {
+		hd := hd
+		ast.Inspect(hd.Decl.Body, func(n ast.Node) bool {
+			call, ok := n.(*ast.CallExpr)
+			if !ok || len(call.Args) != 2 || bm != nil {
+				return true
+			}
+			if id, ok := unparen(call.Fun).(*ast.Ident); !ok || identVar(id, &core.Frame{Pkg: hd.Pkg}) == nil {
+				return true
+			}
+			var ms [2]*types.Func
+			for i, a := range call.Args {
+				if sel, ok := unparen(a).(*ast.SelectorExpr); ok {
+					if sl, ok := hd.Pkg.TypesInfo.Selections[sel]; ok && sl.Kind() == types.MethodVal {
+						ms[i] = sl.Obj().(*types.Func).Origin()
 					}
 				}
 			}
-		}
-		return true
-	})
+			if ms[0] != nil && ms[1] != nil {
+				bm, gm = ms[0], ms[1]
+			}
+			return true
+		})
+	}
 	if bm == nil || gm == nil {
-		c.MissingAnchor("R2e", "the broadcast/getWaitCh method values handed to the callback in HoldLock")
+		c.MissingAnchor("R2e", "the broadcast/getWaitCh method values handed to a section callback in package broadcast")
 		return
 	}
 	// the wait channel is shared by every waiter that sampled since the last broadcast: anywhere in the
@@ -201,7 +198,7 @@ func runR2e(c *Ctx, s *r2State) {
 			closed := false
 			for i, ev := range p.Events {
 				if ev.Kind == core.KClose {
-					if fv := fieldVar(ev.Chan, ev.Frame); fv != nil && core.FieldName(fv) == chField {
+					if t, ok := g.builderAt(i).term(ev.Chan, ev.Frame); ok && t == chField {
 						closed = true
 					}
 				}
@@ -234,7 +231,9 @@ func runR2e(c *Ctx, s *r2State) {
 		entries := []core.Entry{{Decl: fd}}
 		for ei := 0; ei < len(entries); ei++ {
 			e := entries[ei]
-			c.Walk("R2e", &core.Config{}, e, func(p *core.Path) {
+			c.Walk("R2e", &core.Config{Follow: func(f *types.Func) bool {
+				return helperFollow("broadcast")(f) && f.Origin() != bm && f.Origin() != gm
+			}}, e, func(p *core.Path) {
 				for _, ev := range p.Events {
 					if ev.Kind == core.KGo && ev.FunVal.Kind == core.VFuncLit && len(entries) < 8 {
 						// the goroutine runs the literal with the constant arguments of the go statement
@@ -261,7 +260,7 @@ func runR2e(c *Ctx, s *r2State) {
 					if ev.Kind != core.KCall || ev.Callee != nil || ev.Builtin != "" {
 						continue
 					}
-					if len(pv) == 0 || identVar(ev.Call.Fun, ev.Frame) != pv[0] {
+					if len(pv) == 0 || iv(ev.Call.Fun, ev.Frame) != pv[0] {
 						continue
 					}
 					held := false
@@ -286,72 +285,74 @@ func runR2e(c *Ctx, s *r2State) {
 		}
 	}
 	// broadcast: close and forget
+	const chT = "broadcast.Broadcast.ch"
 	bd := c.Prog.Decl(bm)
 	c.Walk("R2e", &core.Config{}, core.Entry{Decl: bd}, func(p *core.Path) {
-		var ch *types.Var
-		nonNil := false
+		if p.End != core.EndReturn {
+			return
+		}
+		g := prepare(c, p)
 		closed, cleared := false, false
-		for _, ev := range p.Events {
+		for i, ev := range p.Events {
 			switch ev.Kind {
-			case core.KBranch:
-				if b, ok := unparen(ev.Cond).(*ast.BinaryExpr); ok && (b.Op == token.NEQ || b.Op == token.EQL) {
-					for _, side := range [][2]ast.Expr{{b.X, b.Y}, {b.Y, b.X}} {
-						if fv := fieldVar(side[0], ev.Frame); fv != nil && isChanType(fv.Type()) && isNilExpr(side[1], ev.Frame) {
-							ch = fv
-							if ev.CondVal == (b.Op == token.NEQ) {
-								nonNil = true
-							}
-						}
-					}
-				}
 			case core.KClose:
-				if fv := fieldVar(ev.Chan, ev.Frame); fv != nil && (ch == nil || fv == ch) {
+				// the field itself, or a local that holds its value (ch := c.ch; … close(ch))
+				if t, ok := g.builderAt(i).term(ev.Chan, ev.Frame); ok && t == chT {
 					closed = true
-					ch = fv
 				}
 			case core.KAssign:
-				if !ev.FieldInit && ev.Var != nil && ev.Var == ch && ev.Rhs != nil && isNilExpr(ev.Rhs, ev.Frame) && closed {
+				if assignsField(ev, chT, "nil") && closed {
 					cleared = true
 				}
 			}
 		}
-		bad := nonNil && !(closed && cleared) || closed && !cleared
+		exists, _ := implies(g.litsBefore(len(p.Events), false), fnot(eq("nil", chT)))
+		bad := exists && !(closed && cleared) || closed && !cleared
 		s.note("R2e", core.FuncName(bd.Obj)+"/close-and-forget", bd.Decl.Pos(), bad, "when a wait channel exists it is closed and forgotten in the same section",
 			"on a path on which a wait channel exists it is not both closed and set to nil before the section ends: waiters are not woken inside the section, or a later broadcast closes the channel twice", p)
 	})
-	// getWaitCh: returns a non-nil channel
+	// getWaitCh: returns a non-nil channel that is the field's value
 	gd := c.Prog.Decl(gm)
 	c.Walk("R2e", &core.Config{}, core.Entry{Decl: gd}, func(p *core.Path) {
-		nonNil := map[*types.Var]bool{}
-		for _, ev := range p.Events {
+		g := prepare(c, p)
+		lastWrite := -1
+		var written *types.Var // the local stored into the field last (c.ch = ch)
+		writtenFresh := false
+		made := map[*types.Var]bool{}
+		for i, ev := range p.Events {
 			switch ev.Kind {
-			case core.KBranch:
-				if b, ok := unparen(ev.Cond).(*ast.BinaryExpr); ok && (b.Op == token.NEQ || b.Op == token.EQL) {
-					for _, side := range [][2]ast.Expr{{b.X, b.Y}, {b.Y, b.X}} {
-						if fv := fieldVar(side[0], ev.Frame); fv != nil && isNilExpr(side[1], ev.Frame) {
-							nonNil[fv] = ev.CondVal == (b.Op == token.NEQ)
-						}
-					}
-				}
 			case core.KAssign:
-				if !ev.FieldInit && ev.Var != nil && ev.Var.IsField() && ev.Rhs != nil {
-					nonNil[ev.Var] = isMakeChan(ev.Rhs, ev.Frame.Info())
+				if ev.FieldInit {
+					continue
+				}
+				if lv := identVar(ev.Lhs, ev.Frame); lv != nil && !lv.IsField() {
+					made[lv] = ev.Rhs != nil && ev.RhsIdx < 0 && isMakeChan(ev.Rhs, ev.Frame.Info())
+				}
+				if assignsField(ev, chT, "") && ev.Rhs != nil {
+					lastWrite = i
+					written = identVar(ev.Rhs, ev.Frame)
+					writtenFresh = isMakeChan(ev.Rhs, ev.Frame.Info()) || written != nil && made[written]
 				}
 			case core.KReturn:
 				if ev.Frame.Parent != nil || len(ev.Results) != 1 {
 					continue
 				}
-				fv := fieldVar(ev.Results[0], ev.Frame)
-				bad := fv == nil || !nonNil[fv]
-				s.note("R2e", core.FuncName(gd.Obj)+"/non-nil-channel", ev.Pos, bad, "every return hands out the field after a path that made it non-nil",
-					"a path returns a channel that may be nil (a receive from it blocks forever) or is not the field the next broadcast closes", p)
+				res := ev.Results[0]
+				rv := identVar(res, ev.Frame)
+				t, okT := g.builderAt(i).term(res, ev.Frame)
+				isField := okT && t == chT || rv != nil && rv == written && lastWrite >= 0
+				nonNil := false
+				if lastWrite >= 0 {
+					nonNil = writtenFresh
+				} else {
+					nonNil, _ = implies(g.litsBefore(i, false), fnot(eq("nil", chT)))
+				}
+				s.note("R2e", core.FuncName(gd.Obj)+"/non-nil-channel", ev.Pos, !(isField && nonNil), "every return hands out the field's channel after a path that made it non-nil",
+					"a path returns a channel that may be nil (a receive from it blocks forever) or is not the one the next broadcast closes", p)
 			}
 		}
 	})
 }
-
-// ---------------------------------------------------------------------------------------------
-// R2f and R17 run over the blocking functions of a package list.
 
 func init() {
 	register(&Rule{ID: "R17", Text: r17Text, Run: runR17})
@@ -385,7 +386,7 @@ func runR17(c *Ctx) {
 			continue
 		}
 		d := d
-		c.Walk("R17", &core.Config{}, core.Entry{Decl: d}, func(p *core.Path) { s.interruptPath(d, ctxP, chans, p) })
+		c.Walk("R17", &core.Config{Follow: waitHelperFollow(d.Obj)}, core.Entry{Decl: d}, func(p *core.Path) { s.interruptPath(d, ctxP, chans, p) })
 	}
 	for _, k := range s.order {
 		c.Add(s.agg[k])
@@ -393,6 +394,10 @@ func runR17(c *Ctx) {
 }
 
 func isCtxDone(e ast.Expr, fr *core.Frame, ctxs map[*types.Var]bool) bool {
+	// a local that holds <ctx>.Done() (ctxDone := ctx.Done())
+	if v := iv(e, fr); v != nil && ctxs[doneMarker(v)] {
+		return true
+	}
 	call, ok := unparen(e).(*ast.CallExpr)
 	if !ok {
 		return false
@@ -401,7 +406,7 @@ func isCtxDone(e ast.Expr, fr *core.Frame, ctxs map[*types.Var]bool) bool {
 	if !ok || sel.Sel.Name != "Done" {
 		return false
 	}
-	v := identVar(sel.X, fr)
+	v := iv(sel.X, fr)
 	return v != nil && ctxs[v]
 }
 
@@ -426,10 +431,10 @@ func (s *r2State) interruptPath(d *core.FuncDecl, ctxP *types.Var, chans []*type
 		// err returned by a client callback parameter (possibly called inside a section literal)
 		if ev.Kind == core.KAssign && ev.Rhs != nil && ev.RhsIdx >= 0 {
 			if call, ok := unparen(ev.Rhs).(*ast.CallExpr); ok {
-				if fv := identVar(call.Fun, ev.Frame); fv != nil {
+				if fv := iv(call.Fun, ev.Frame); fv != nil {
 					for _, q := range pvs {
 						if q == fv {
-							if lv := identVar(ev.Lhs, ev.Frame); lv != nil && isErrorType(lv.Type()) {
+							if lv := iv(ev.Lhs, ev.Frame); lv != nil && isErrorType(lv.Type()) {
 								cbErr, cbErrIdx = lv, i
 							}
 						}
@@ -437,8 +442,8 @@ func (s *r2State) interruptPath(d *core.FuncDecl, ctxP *types.Var, chans []*type
 				}
 			}
 		}
-		if ev.Frame.Parent != nil {
-			continue // own body only
+		if !ownBody(ev.Frame) {
+			continue // own body (and the unexported helpers walked in place) only
 		}
 		switch ev.Kind {
 		case core.KLoop:
@@ -448,10 +453,10 @@ func (s *r2State) interruptPath(d *core.FuncDecl, ctxP *types.Var, chans []*type
 			// err returned by a client callback parameter: done, err = cb(…)
 			if ev.Rhs != nil && ev.RhsIdx >= 0 {
 				if call, ok := unparen(ev.Rhs).(*ast.CallExpr); ok {
-					if fv := identVar(call.Fun, ev.Frame); fv != nil {
+					if fv := iv(call.Fun, ev.Frame); fv != nil {
 						for _, q := range pvs {
 							if q == fv {
-								if lv := identVar(ev.Lhs, ev.Frame); lv != nil && isErrorType(lv.Type()) {
+								if lv := iv(ev.Lhs, ev.Frame); lv != nil && isErrorType(lv.Type()) {
 									cbErr, cbErrIdx = lv, i
 								}
 							}
@@ -463,20 +468,26 @@ func (s *r2State) interruptPath(d *core.FuncDecl, ctxP *types.Var, chans []*type
 			if ev.Rhs != nil {
 				if call, ok := unparen(ev.Rhs).(*ast.CallExpr); ok && ev.RhsIdx <= 0 {
 					if f, _ := typeutil.Callee(ev.Frame.Info(), call).(*types.Func); f != nil && f.Pkg() != nil && f.Pkg().Path() == "context" && len(call.Args) > 0 {
-						if pv := identVar(call.Args[0], ev.Frame); pv != nil && ctxs[pv] {
-							if lv := identVar(ev.Lhs, ev.Frame); lv != nil {
+						if pv := iv(call.Args[0], ev.Frame); pv != nil && ctxs[pv] {
+							if lv := iv(ev.Lhs, ev.Frame); lv != nil {
 								ctxs[lv] = true
 							}
 						}
 					}
 				}
 			}
+			// ctxDone := ctx.Done()
+			if ev.Rhs != nil && ev.RhsIdx < 0 && isCtxDone(ev.Rhs, ev.Frame, ctxs) {
+				if lv := iv(ev.Lhs, ev.Frame); lv != nil {
+					ctxs[doneMarker(lv)] = true
+				}
+			}
 			// err, ok := <-errCh
 			if u, ok := unparen(ev.Rhs).(*ast.UnaryExpr); ok && u.Op == token.ARROW {
-				if chv := identVar(u.X, ev.Frame); chv != nil {
+				if chv := iv(u.X, ev.Frame); chv != nil {
 					for _, cp := range chans {
 						if cp == chv && ev.RhsIdx <= 0 {
-							if lv := identVar(ev.Lhs, ev.Frame); lv != nil {
+							if lv := iv(ev.Lhs, ev.Frame); lv != nil {
 								recvErr[lv] = true
 								guarded[lv] = false
 							}
@@ -490,12 +501,12 @@ func (s *r2State) interruptPath(d *core.FuncDecl, ctxP *types.Var, chans []*type
 				for _, side := range [][2]ast.Expr{{b.X, b.Y}, {b.Y, b.X}} {
 					if call, ok := unparen(side[0]).(*ast.CallExpr); ok && isNilExpr(side[1], ev.Frame) {
 						if sel, ok := unparen(call.Fun).(*ast.SelectorExpr); ok && sel.Sel.Name == "Err" {
-							if v := identVar(sel.X, ev.Frame); v != nil && ctxs[v] && ev.CondVal == (b.Op == token.NEQ) {
+							if v := iv(sel.X, ev.Frame); v != nil && ctxs[v] && ev.CondVal == (b.Op == token.NEQ) {
 								ctxEv = true
 							}
 						}
 					}
-					if lv := identVar(side[0], ev.Frame); lv != nil && isNilExpr(side[1], ev.Frame) {
+					if lv := iv(side[0], ev.Frame); lv != nil && isNilExpr(side[1], ev.Frame) {
 						if recvErr[lv] && ev.CondVal == (b.Op == token.NEQ) {
 							guarded[lv] = true
 						}
@@ -503,10 +514,10 @@ func (s *r2State) interruptPath(d *core.FuncDecl, ctxP *types.Var, chans []*type
 						if ev.CondVal == (b.Op == token.NEQ) {
 							for j := i - 1; j >= 0; j-- {
 								a := p.Events[j]
-								if a.Kind == core.KAssign && identVar(a.Lhs, a.Frame) == lv {
+								if a.Kind == core.KAssign && iv(a.Lhs, a.Frame) == lv {
 									if call, ok := unparen(a.Rhs).(*ast.CallExpr); ok {
 										if sel, ok := unparen(call.Fun).(*ast.SelectorExpr); ok && sel.Sel.Name == "Err" {
-											if v := identVar(sel.X, a.Frame); v != nil && ctxs[v] {
+											if v := iv(sel.X, a.Frame); v != nil && ctxs[v] {
 												ctxEv = true
 											}
 										}
@@ -522,7 +533,7 @@ func (s *r2State) interruptPath(d *core.FuncDecl, ctxP *types.Var, chans []*type
 				if !ev.CondVal {
 					for j := i - 1; j >= 0 && j > i-6; j-- {
 						a := p.Events[j]
-						if a.Kind == core.KAssign && a.RhsIdx == 1 && identVar(a.Lhs, a.Frame) == identVar(u, ev.Frame) {
+						if a.Kind == core.KAssign && a.RhsIdx == 1 && iv(a.Lhs, a.Frame) == iv(u, ev.Frame) {
 							closedEv = true
 						}
 					}
@@ -539,7 +550,7 @@ func (s *r2State) interruptPath(d *core.FuncDecl, ctxP *types.Var, chans []*type
 			}
 			if ev.InSelect {
 				cancelArm = false
-				if chv := identVar(ev.Chan, ev.Frame); chv != nil {
+				if chv := iv(ev.Chan, ev.Frame); chv != nil {
 					for _, cp := range chans {
 						if ch, ok := cp.Type().Underlying().(*types.Chan); ok && cp == chv {
 							if st, ok := ch.Elem().Underlying().(*types.Struct); ok && st.NumFields() == 0 {
@@ -549,7 +560,7 @@ func (s *r2State) interruptPath(d *core.FuncDecl, ctxP *types.Var, chans []*type
 					}
 				}
 			}
-			if chv := identVar(ev.Chan, ev.Frame); chv != nil {
+			if chv := iv(ev.Chan, ev.Frame); chv != nil {
 				for _, cp := range chans {
 					if cp == chv {
 						if ch, ok := cp.Type().Underlying().(*types.Chan); ok {
@@ -574,7 +585,7 @@ func (s *r2State) interruptPath(d *core.FuncDecl, ctxP *types.Var, chans []*type
 			// a call that is handed a context of ours may block
 			passes := false
 			for _, a := range ev.Call.Args {
-				if v := identVar(a, ev.Frame); v != nil && ctxs[v] {
+				if v := iv(a, ev.Frame); v != nil && ctxs[v] {
 					passes = true
 				}
 			}
@@ -603,7 +614,7 @@ func (s *r2State) interruptPath(d *core.FuncDecl, ctxP *types.Var, chans []*type
 					s.note("R17", name+"/nil-only-without-callback-error", ev.Pos, !ok,
 						"nil is returned only when the client callback's error is known to be nil",
 						"nil is returned on a path that has not excluded a non-nil error from the client callback: the callback's error is dropped", p)
-				} else if rt != nil && isErrorType(rt) && identVar(last, ev.Frame) != cbErr {
+				} else if rt != nil && isErrorType(rt) && iv(last, ev.Frame) != cbErr {
 					// any other error (context.Canceled …) replaces the callback's verdict only when the
 					// callback's error — as assigned last — is known to be nil
 					g := prepare(c, p)
@@ -641,8 +652,14 @@ func (s *r2State) interruptPath(d *core.FuncDecl, ctxP *types.Var, chans []*type
 							}
 						}
 					}
-					if v := identVar(last, ev.Frame); v != nil && !isNilExpr(last, ev.Frame) {
+					if v := iv(last, ev.Frame); v != nil && !isNilExpr(last, ev.Frame) {
 						okSentinel = true // a variable: its provenance is judged by the sentinel-provenance rule
+					}
+					// return helper(…): the helper was walked in place and its own return was judged
+					if call, isCall := unparen(last).(*ast.CallExpr); isCall {
+						if f, _ := typeutil.Callee(ev.Frame.Info(), call).(*types.Func); f != nil && f.Pkg() == d.Obj.Pkg() {
+							okSentinel = true
+						}
 					}
 					if !isNilExpr(last, ev.Frame) {
 						s.note("R17", name+"/ctx-arm-returns-sentinel", ev.Pos, !okSentinel,
@@ -660,7 +677,7 @@ func (s *r2State) interruptPath(d *core.FuncDecl, ctxP *types.Var, chans []*type
 				}
 				if call, ok := unparen(r).(*ast.CallExpr); ok {
 					if sel, ok := unparen(call.Fun).(*ast.SelectorExpr); ok && sel.Sel.Name == "Err" {
-						if v := identVar(sel.X, ev.Frame); v != nil && ctxs[v] {
+						if v := iv(sel.X, ev.Frame); v != nil && ctxs[v] {
 							isCanceled = true
 						}
 					}
@@ -671,7 +688,7 @@ func (s *r2State) interruptPath(d *core.FuncDecl, ctxP *types.Var, chans []*type
 						"context.Canceled is returned only after a ctx.Done()/cancel-channel arm, a closed error channel or a ctx.Err() != nil test",
 						"context.Canceled (or ctx.Err()) is returned on a path on which, in this loop iteration, no cancellation source fired", p)
 				}
-				if lv := identVar(r, ev.Frame); lv != nil && recvErr[lv] {
+				if lv := iv(r, ev.Frame); lv != nil && recvErr[lv] {
 					bad := !guarded[lv]
 					s.note("R17", name+"/return-received-error", ev.Pos, bad,
 						"an error received from the error channel is returned only under err != nil",
@@ -701,14 +718,14 @@ func (s *r2State) blockingSite(name string, ev *core.Event, sel *ast.SelectStmt,
 				if isCtxDone(u.X, ev.Frame, ctxs) {
 					hasCtx = true
 				}
-				if v := identVar(u.X, ev.Frame); v != nil {
+				if v := iv(u.X, ev.Frame); v != nil {
 					has[v] = true
 				}
 			}
 		}
 	} else if ev.Kind == core.KCall {
 		for _, a := range ev.Call.Args {
-			if v := identVar(a, ev.Frame); v != nil {
+			if v := iv(a, ev.Frame); v != nil {
 				has[v] = true
 				if ctxs[v] {
 					hasCtx = true
@@ -719,7 +736,7 @@ func (s *r2State) blockingSite(name string, ev *core.Event, sel *ast.SelectStmt,
 		if isCtxDone(ev.Chan, ev.Frame, ctxs) {
 			hasCtx = true
 		}
-		if v := identVar(ev.Chan, ev.Frame); v != nil {
+		if v := iv(ev.Chan, ev.Frame); v != nil {
 			has[v] = true
 		}
 	}
@@ -743,5 +760,71 @@ func (s *r2State) blockingSite(name string, ev *core.Event, sel *ast.SelectStmt,
 	for _, cp := range chans {
 		s.note("R2f", name+"/blocking-site:"+site+"/"+cp.Name(), ev.Pos, !has[cp], "the blocking site listens to "+cp.Name(),
 			"this blocking site does not listen to the parameter "+cp.Name()+": an error/cancel signal on it is ignored while the function is blocked here", p)
+	}
+}
+
+// iv: identVar, with a parameter of an inlined helper resolved to the caller's variable it was bound to.
+func iv(e ast.Expr, fr *core.Frame) *types.Var {
+	v := identVar(e, fr)
+	if v == nil {
+		return nil
+	}
+	for f := fr; f != nil && f.Parent != nil; f = f.Parent {
+		if f.Call == nil {
+			continue
+		}
+		if arg, afr, ok := paramArgIn(v, f); ok {
+			if av := identVar(arg, afr); av != nil {
+				v, fr = av, afr
+				continue
+			}
+			return v
+		}
+	}
+	return v
+}
+
+// ownBody: the frame is the entry or an inlined declared helper of it (no function literal in between).
+func ownBody(fr *core.Frame) bool {
+	for f := fr; f != nil && f.Parent != nil; f = f.Parent {
+		if f.Lit != nil {
+			return false
+		}
+	}
+	return true
+}
+
+var doneMarkers = map[*types.Var]*types.Var{}
+
+// doneMarker: a stand-in variable meaning "this local holds a context's Done() channel".
+func doneMarker(v *types.Var) *types.Var {
+	synthMu.Lock()
+	defer synthMu.Unlock()
+	if m, ok := doneMarkers[v]; ok {
+		return m
+	}
+	m := types.NewVar(v.Pos(), v.Pkg(), v.Name()+"#done", v.Type())
+	doneMarkers[v] = m
+	return m
+}
+
+// waitHelperFollow: unexported same-package functions that are handed a context or a channel — the
+// blocking select of a waiter may have been extracted into one.
+func waitHelperFollow(self *types.Func) func(*types.Func) bool {
+	return func(f *types.Func) bool {
+		if f.Pkg() == nil || f.Pkg() != self.Pkg() || f.Exported() || f.Origin() == self.Origin() {
+			return false
+		}
+		sig, ok := f.Type().(*types.Signature)
+		if !ok {
+			return false
+		}
+		for i := 0; i < sig.Params().Len(); i++ {
+			t := sig.Params().At(i).Type()
+			if isChanType(t) || isContextType(t) {
+				return true
+			}
+		}
+		return false
 	}
 }
